@@ -3,10 +3,10 @@
 * `errors_map` of the live `DefaultConfig` (class name -> status of the mapped HTTPError) and a
   behavioural probe of `BaseRequest._raise` for every modelled error class x except_class,
 * the texts of `FieldStorage._patt` and `MULTIPART_BOUNDARY_PATT`, the memfile default,
-* a behavioural table of `FieldStorage._patt.finditer` over all strings of length <= 5 over
-  {a = ; "} (<= 3 with a space, and some longer ones with quoted values), which the Lean function `pattIter` is checked against,
+* a behavioural table of `FieldStorage._patt.finditer` over all strings of length <= 4 over
+  {a = ; "} (<= 3 with a space; those of length 5 that start with `a` and hold two quotes; some longer ones), which the Lean function `pattIter` is checked against,
 * a behavioural table of the boundary `Request._body` hands to `MultipartMarkup` for content types
-  `multipart/` + words over {x ; LF " boundary=} (and a few without the prefix), which `boundaryOf`
+  `multipart/` + words of <= 3 atoms over {x ; LF " boundary=} (and a few without the prefix), which `boundaryOf`
   is checked against.
 Strings are emitted as lists of code points so that the kernel can evaluate the comparison."""
 import io
@@ -70,7 +70,8 @@ def generate():
     out.append(f'/-- `DefaultConfig.max_memfile_size` -/\ndef formsMaxMemfile : Nat := {int(DefaultConfig.max_memfile_size)}')
     # _patt.finditer table
     rows = []
-    words = [''.join(t) for n in range(0, 6) for t in itertools.product('a=;"', repeat=n)]
+    words = [''.join(t) for n in range(0, 5) for t in itertools.product('a=;"', repeat=n)]
+    words += [''.join(t) for t in itertools.product('a=;"', repeat=5) if t[0] == 'a' and t.count('"') >= 2]
     words += ['a="a"', 'a="a";', 'a="";a', 'a="a"a', 'a="a;a"', 'a="a=a";a=a', 'a=a"a";a', 'a="a;a";a="a"', 'a;a="a"a;a="a"']
     words += [''.join(t) for n in range(1, 4) for t in itertools.product('a=;" ', repeat=n) if ' ' in t]
     for w in words:
@@ -81,7 +82,7 @@ def generate():
     # boundary table (through Request._body)
     rows = []
     atoms = ['x', ';', '\n', '"', 'boundary=']
-    cts = ['multipart/' + ''.join(t) for n in range(0, 5) for t in itertools.product(atoms, repeat=n)]
+    cts = ['multipart/' + ''.join(t) for n in range(0, 4) for t in itertools.product(atoms, repeat=n)]
     cts += ['', 'multipart', 'Multipart/x;boundary=x', 'multipart/boundary=x', 'text/plain; boundary=x',
             'multipart/x; boundary="', 'multipart/x; boundary=""', 'multipart/x; boundary="a"b"', 'xmultipart/x;boundary=b']
     for ct in cts:
